@@ -198,6 +198,24 @@ CLAIMED = {
         "chunk-size and 2^16 track-count bounds are hypotheses of composition_parses. Four defects repaired by fix: commits "
         "(259d7c9 key signature, adb3a11 bank select, a56fb57 tripled leading rest, fc6c3a8 trailing rest lost on repeat).",
    design="§4 C16"),
+ "C17": dict(
+   text="Hand model of midi_file_in.MidiFile in two layers, as in the code: the byte parsers reading one stream, and "
+        "MIDI_to_Composition (every non-zero delta closes the open entry and opens a new one) over the IEEE-exact float Bar of "
+        "C13. Lean, unbounded: varbyte_toVarbyte (the variable-length reader inverts the writer for EVERY n, consuming exactly "
+        "the encoding); parseFile_fileBytes (mingus's own parsers read every file the writer model produces back as format 1, 72 "
+        "ticks and exactly the events written - composed with C16's refinement these are the specification's events); "
+        "tempo_roundtrip (60000000 div (60000000 div b) = b whenever b(b+1) <= 60000000, i.e. every bpm <= 7745) with "
+        "tempo_counterexample (7999 -> 8000: the format holds whole microseconds) and tempo_event_roundtrip; key_roundtrip (all 30 "
+        "keys, kernel), name_roundtrip (any ASCII name), instrument_roundtrip, meter_roundtrip (any count, any 2^k unit); "
+        "reject_bad_header_tag / short_header / impossible_format / bad_track_tag / bad_first_track for any bytes. Tie A: every "
+        "statement of the reader; Tie B: real write_Composition -> real file -> MIDI_to_Composition vs the model, judged by an "
+        "independent flatten-and-merge oracle.",
+   note=TRUST + "Partial: the second stage (delta times -> bar entries with float bar accounting) is modelled and compared with the "
+        "implementation on every generated composition, but 'flattened read = flattened written' is not yet a Lean theorem "
+        "(roundtrip_partial in DESIGN.md); it is decided by the correspondence and the oracle. 'Every bpm the format can hold' is "
+        "read as: the tempo that comes back is 60000000 div (60000000 div bpm). Three defects repaired by fix: commits (7b30158 "
+        "key signatures, c08e47e leading rest, c357aa9 file without tempo).",
+   design="§4 C17"),
  "C04": dict(
    text="Whole-table kernel evaluation (decide +kernel) of everything the statement says about each of the 30 keys, the 15 "
         "relative couples, the key objects and signature<->key inversion; unbounded theorems for rejections (any string, any "
